@@ -396,6 +396,8 @@ func runC18(c *Ctx, r *Report) {
 	_ = entryParam
 
 	// ---- R-C18.6 / R-C18.7
+	r.Doc("R-C18.15", "the constructors that rebuild a log read its blocks with the very codec they give the rebuilt log (both loaded from the same options value): readers holding the key recover the links")
+	loaderCodecIsLogCodec(c, r, "R-C18.15")
 	r.Doc("R-C18.6", "neither the decode path nor the sealing path keeps state between entries (pooled or memoised scratch objects would hand one entry's links, decrypted or sealed, to the next)")
 	r.Doc("R-C18.7", "the codec objects shared by concurrent PreSign/DecryptLinks calls are of concurrency-safe (pooled/stateless) types")
 	r.Doc("R-C18.8", "the link-key codec configured for a log is the one its loaders read with and the one a reopened log writes with")
@@ -489,6 +491,98 @@ func runC18(c *Ctx, r *Report) {
 			"IOCbor."+f.Name()+" is "+why+" shared by every concurrent PreSign/DecryptLinks (fetch workers, Join validators, parallel appends): concurrent use corrupts the sealed link payload")
 	}
 	r.Floor("R-C18.7", "IOCbor fields used by PreSign/DecryptLinks", nfld, 2)
+	// the first-party objects behind those fields (the sealed box behind the link key): their methods leave the
+	// receiver as it is — no store through it, no call on a stateful object it holds
+	nimpl := 0
+	for i := 0; i < ioT.NumFields(); i++ {
+		f := ioT.Field(i)
+		it, ok := f.Type().Underlying().(*types.Interface)
+		nt := namedOf(f.Type())
+		if !ok || nt == nil || !p.firstParty(nt.Obj().Pkg()) {
+			continue
+		}
+		// the methods PreSign / DecryptLinks call on the field
+		called := map[string]bool{}
+		for _, user := range []*Fn{ps, dl} {
+			walkNoLit(user.Body, func(n ast.Node) bool {
+				if call, ok := n.(*ast.CallExpr); ok {
+					if se, ok := ast.Unparen(call.Fun).(*ast.SelectorExpr); ok {
+						if v, _ := p.FieldSel(user, se.X); v == f {
+							called[se.Sel.Name] = true
+						}
+					}
+				}
+				return true
+			})
+		}
+		for _, fn := range p.Fns {
+			if fn.Obj == nil || fn.Orig != nil || fn.Decl == nil || fn.Decl.Recv == nil || fn.Body == nil || !p.firstParty(fn.Pkg.Types) {
+				continue
+			}
+			sig := fn.Obj.Type().(*types.Signature)
+			if !types.Implements(sig.Recv().Type(), it) {
+				continue
+			}
+			if !called[fn.Obj.Name()] || len(fn.Decl.Recv.List) != 1 || len(fn.Decl.Recv.List[0].Names) != 1 {
+				continue
+			}
+			nimpl++
+			recv := fn.Pkg.TypesInfo.Defs[fn.Decl.Recv.List[0].Names[0]]
+			bad := ""
+			var badPos token.Pos
+			rooted := func(e ast.Expr) bool {
+				root, _, ok := p.PathKey(fn, e)
+				return ok && root == recv
+			}
+			ast.Inspect(fn.Body, func(n ast.Node) bool {
+				if bad != "" {
+					return false
+				}
+				switch x := n.(type) {
+				case *ast.AssignStmt:
+					for _, l := range x.Lhs {
+						e := ast.Unparen(l)
+						for {
+							if ix, ok := e.(*ast.IndexExpr); ok {
+								e = ast.Unparen(ix.X)
+								continue
+							}
+							break
+						}
+						if _, isIdent := e.(*ast.Ident); !isIdent && rooted(e) {
+							bad, badPos = "stores into `"+types.ExprString(l)+"`", x.Pos()
+						}
+						if st, ok := e.(*ast.StarExpr); ok && rooted(st.X) {
+							bad, badPos = "stores through the receiver", x.Pos()
+						}
+					}
+				case *ast.IncDecStmt:
+					if rooted(x.X) {
+						if _, isIdent := ast.Unparen(x.X).(*ast.Ident); !isIdent {
+							bad, badPos = "changes `"+types.ExprString(x.X)+"`", x.Pos()
+						}
+					}
+				case *ast.CallExpr:
+					if se, ok := ast.Unparen(x.Fun).(*ast.SelectorExpr); ok {
+						if fv, _ := p.FieldSel(fn, se.X); fv != nil && rooted(se.X) {
+							if sel := fn.Pkg.TypesInfo.Selections[se]; sel != nil && sel.Kind() == types.MethodVal {
+								bad, badPos = "calls "+se.Sel.Name+" on `"+types.ExprString(se.X)+"` ("+types.TypeString(fv.Type(), nil)+"), an object every caller shares", x.Pos()
+							}
+						}
+					}
+				}
+				return true
+			})
+			pos := fn.Body.Pos()
+			if bad != "" {
+				pos = badPos
+			}
+			r.Check(bad == "", "R-C18.7", r.Key("R-C18.7", fn, "shared-object-method", f.Name()), pos,
+				fn.Name+" leaves its receiver as it is (the object behind IOCbor."+f.Name()+" is used by every concurrent PreSign/DecryptLinks)",
+				fn.Name+" "+bad+": the object behind IOCbor."+f.Name()+" is shared by the merge's concurrent verifications, the fetch workers and every log using the codec — concurrent calls corrupt each other's nonce or sealed payload, and entries written by Append stop verifying")
+		}
+	}
+	r.Floor("R-C18.7", "methods of first-party objects behind the codec's shared fields that PreSign/DecryptLinks call", nimpl, 2)
 
 	// ---- R-C18.4
 	openErr := map[types.Object]string{}
